@@ -250,3 +250,833 @@ Qed.
 
 End Laws.
 End HistProofs.
+
+(** ------------------------------------------------------------------ exact arithmetic: the Hellinger distance over R *)
+Section HellingerR.
+Local Open Scope R_scope.
+
+Definition sqR (x : R) : R := x * x.
+Definition hellR : list Z -> list Z -> R := @hellinger NumR sqR.
+
+Fixpoint Rsum (l : list R) : R := match l with [] => 0 | x :: t => x + Rsum t end.
+
+Lemma fold_Rplus l a : fold_left Rplus l a = a + Rsum l.
+Proof. revert a; induction l as [|x l IH]; intros a; simpl; [lra | rewrite IH; lra]. Qed.
+Lemma sum_from0_R l : @sum_from0 NumR l = Rsum l.
+Proof. unfold sum_from0. simpl. rewrite fold_Rplus. lra. Qed.
+
+Lemma Rsum_zero l : (forall x, In x l -> x = 0) -> Rsum l = 0.
+Proof. induction l as [|a l IH]; intros H; simpl; [reflexivity|]. rewrite (H a (or_introl eq_refl)), IH; [lra|]. intros; apply H; right; assumption. Qed.
+
+Lemma Rsum_le {A} (f g : A -> R) l : (forall x, In x l -> f x <= g x) -> Rsum (map f l) <= Rsum (map g l).
+Proof.
+  induction l as [|a l IH]; intros H; simpl; [lra|].
+  pose proof (H a (or_introl eq_refl)). assert (Rsum (map f l) <= Rsum (map g l)) by (apply IH; intros; apply H; right; assumption). lra.
+Qed.
+
+Lemma Rsum_nonneg l : (forall x, In x l -> 0 <= x) -> 0 <= Rsum l.
+Proof. induction l as [|a l IH]; intros H; simpl; [lra|]. pose proof (H a (or_introl eq_refl)). assert (0 <= Rsum l) by (apply IH; intros; apply H; right; assumption). lra. Qed.
+
+Definition hterm (Rl Tl : R) (rt : Z * Z) : R := sqR (sqrt (IZR (snd rt) / Tl) - sqrt (IZR (fst rt) / Rl)).
+
+Lemma hellR_unfold rh th :
+  hellR rh th = sqrt (Rsum (map (hterm (IZR (zsum_l rh)) (IZR (zsum_l th))) (combine rh th))).
+Proof. unfold hellR, hellinger. rewrite sum_from0_R. reflexivity. Qed.
+
+(** identical histograms are at distance 0 *)
+Lemma hellR_same h : hellR h h = 0.
+Proof.
+  rewrite hellR_unfold. rewrite Rsum_zero; [apply sqrt_0|].
+  intros x Hx. apply in_map_iff in Hx as ([a b] & <- & Hab).
+  assert (a = b). { clear -Hab. induction h as [|c h IH]; simpl in Hab; [contradiction|]. destruct Hab as [E|E]; [inversion E; reflexivity | apply IH, E]. }
+  subst. unfold hterm, sqR. simpl. ring.
+Qed.
+
+(** symmetric as a function of the two histograms *)
+Lemma hellR_sym rh th : hellR rh th = hellR th rh.
+Proof.
+  rewrite !hellR_unfold. f_equal. f_equal.
+  generalize (IZR (zsum_l rh)) (IZR (zsum_l th)). intros Rl Tl.
+  revert th; induction rh as [|a rh IH]; intros [|b th]; simpl; try reflexivity.
+  f_equal; [|apply IH]. unfold hterm, sqR. simpl. ring.
+Qed.
+
+Lemma Rsum_div (l : list Z) d : Rsum (map (fun z => IZR z / d) l) = IZR (zsum_l l) / d.
+Proof. induction l as [|a l IH]; simpl; [lra|]. rewrite IH, plus_IZR. lra. Qed.
+
+Lemma Rsum_combine_le (f g : Z -> R) rh th :
+  (forall r, In r rh -> 0 <= f r) -> (forall t, In t th -> 0 <= g t) ->
+  Rsum (map (fun rt => f (fst rt) + g (snd rt)) (combine rh th)) <= Rsum (map f rh) + Rsum (map g th).
+Proof.
+  revert th; induction rh as [|a rh IH]; intros th Hf Hg.
+  - simpl. pose proof (Rsum_nonneg (map g th)) as H. assert (0 <= Rsum (map g th)); [|lra].
+    apply H. intros x Hx. apply in_map_iff in Hx as (t & <- & Ht). apply Hg, Ht.
+  - destruct th as [|b th].
+    + simpl. pose proof (Hf a (or_introl eq_refl)).
+      assert (0 <= Rsum (map f rh)); [|lra].
+      apply Rsum_nonneg. intros x Hx. apply in_map_iff in Hx as (t & <- & Ht). apply Hf. right; exact Ht.
+    + simpl. assert (H := IH th (fun r Hr => Hf r (or_intror Hr)) (fun t Ht => Hg t (or_intror Ht))). lra.
+Qed.
+
+(** ... and never exceeds sqrt 2 (counts non-negative, both histograms non-empty) *)
+Lemma hellR_bound rh th :
+  (forall r, In r rh -> (0 <= r)%Z) -> (forall t, In t th -> (0 <= t)%Z) ->
+  (0 < zsum_l rh)%Z -> (0 < zsum_l th)%Z -> 0 <= hellR rh th <= sqrt 2.
+Proof.
+  intros Hr Ht HR HT. rewrite hellR_unfold. split; [apply sqrt_pos|]. apply sqrt_le_1_alt.
+  set (Rl := IZR (zsum_l rh)). set (Tl := IZR (zsum_l th)).
+  assert (HRl : 0 < Rl) by (apply IZR_lt in HR; exact HR).
+  assert (HTl : 0 < Tl) by (apply IZR_lt in HT; exact HT).
+  eapply Rle_trans.
+  - apply (Rsum_le _ (fun rt => IZR (fst rt) / Rl + IZR (snd rt) / Tl)).
+    intros [r t] Hin. pose proof (in_combine_l _ _ _ _ Hin) as H1. pose proof (in_combine_r _ _ _ _ Hin) as H2.
+    unfold hterm, sqR. simpl.
+    assert (Hp : 0 <= IZR r / Rl). { apply Rmult_le_pos; [apply IZR_le, Hr, H1 | left; apply Rinv_0_lt_compat, HRl]. }
+    assert (Hq : 0 <= IZR t / Tl). { apply Rmult_le_pos; [apply IZR_le, Ht, H2 | left; apply Rinv_0_lt_compat, HTl]. }
+    pose proof (sqrt_pos (IZR r / Rl)). pose proof (sqrt_pos (IZR t / Tl)).
+    pose proof (sqrt_sqrt _ Hp). pose proof (sqrt_sqrt _ Hq).
+    nra.
+  - eapply Rle_trans; [apply (Rsum_combine_le (fun r => IZR r / Rl) (fun t => IZR t / Tl))|].
+    + intros r H. apply Rmult_le_pos; [apply IZR_le, Hr, H | left; apply Rinv_0_lt_compat, HRl].
+    + intros t H. apply Rmult_le_pos; [apply IZR_le, Ht, H | left; apply Rinv_0_lt_compat, HTl].
+    + rewrite !Rsum_div. fold Rl Tl. unfold Rdiv. rewrite !Rinv_r by lra. lra.
+Qed.
+
+(** the recorded distance is the mean over the features, hence within the same bound *)
+Lemma mean_dist_bound (fds : list R) c :
+  fds <> [] -> (forall d, In d fds -> 0 <= d <= c) -> 0 <= @mean_dist NumR (zlen fds) fds <= c.
+Proof.
+  intros Hne H. unfold mean_dist. rewrite sum_from0_R. simpl.
+  assert (Hk : 0 < IZR (zlen fds)). { apply IZR_lt. unfold zlen. destruct fds; [congruence|]. simpl length. lia. }
+  assert (Hs : 0 <= Rsum fds <= IZR (zlen fds) * c).
+  { clear Hne Hk. induction fds as [|d fds IH]; simpl.
+    - unfold zlen. simpl. lra.
+    - rewrite zlen_cons, plus_IZR. pose proof (H d (or_introl eq_refl)).
+      assert (0 <= Rsum fds <= IZR (zlen fds) * c) by (apply IH; intros; apply H; right; assumption). lra. }
+  assert (Hi : 0 < / IZR (zlen fds)) by (apply Rinv_0_lt_compat, Hk).
+  split.
+  - apply Rmult_le_pos; [|lra]. unfold Rdiv. lra.
+  - replace c with (1 / IZR (zlen fds) * (IZR (zlen fds) * c)) by (field; lra).
+    apply Rmult_le_compat_l; [unfold Rdiv; lra | lra].
+Qed.
+
+End HellingerR.
+
+Section HistR.
+Local Open Scope R_scope.
+
+(** the C cast on reals: truncation towards zero *)
+Definition truncR (x : R) : Z := if Rle_dec 0 x then Int_part x else (- Int_part (- x))%Z.
+
+Lemma truncR_range x n : 0 <= x <= IZR n -> (0 <= truncR x <= n)%Z.
+Proof.
+  intros [H0 Hn]. unfold truncR. destruct (Rle_dec 0 x) as [_|C]; [|contradiction].
+  destruct (base_Int_part x) as [B1 B2]. split.
+  - assert (IZR (-1) < IZR (Int_part x)) by (simpl; lra). apply lt_IZR in H. lia.
+  - apply le_IZR. lra.
+Qed.
+
+Lemma antisymR : forall a b : F NumR, fleb a b = true -> fleb b a = true -> a = b.
+Proof. intros a b. simpl. rewrite !Rleb_iff. lra. Qed.
+
+Lemma outer_edges_R (lo hi : R) : lo <= hi ->
+  let '(first, last) := @outer_edges NumR lo hi in first < last /\ first <= lo /\ hi <= last.
+Proof.
+  intros H. unfold outer_edges. simpl. destruct (Req_EM_T lo hi) as [E|E]; unfold fhalf; simpl; lra.
+Qed.
+
+Lemma linspace_first_R (first last : R) n : (1 <= n)%Z -> edge (@linspace NumR first last n) 0 = first.
+Proof.
+  intros Hn. unfold edge, linspace, zrange. destruct (Z.to_nat n) as [|k] eqn:E; [lia|].
+  simpl. destruct (Req_EM_T ((last - first) / IZR n) 0); lra.
+Qed.
+
+(** over the reals the counts of np.histogram add up to the number of points whenever the range
+    spans them (no further hypothesis) *)
+Lemma hist_sum_R (xs : list R) n lo hi :
+  (1 <= n)%Z -> (forall x, In x xs -> lo <= x <= hi) -> xs <> [] ->
+  zsum_l (@histogram NumR truncR xs n lo hi) = zlen xs.
+Proof.
+  intros Hn Hx Hne. apply (@hist_sum NumR truncR OrdLawsR); [exact Hn|].
+  assert (Hlh : lo <= hi). { destruct xs as [|a xs]; [congruence|]. pose proof (Hx a (or_introl eq_refl)). lra. }
+  pose proof (outer_edges_R lo hi Hlh) as Ho. destruct (@outer_edges NumR lo hi) as [first last].
+  destruct Ho as (Hfl & Hf & Hl). intros x Hin. pose proof (Hx x Hin) as Hxr.
+  split; [|split].
+  - unfold keep. simpl. apply andb_true_iff. rewrite !Rleb_iff. lra.
+  - rewrite linspace_first_R by exact Hn. simpl. apply Rleb_iff. lra.
+  - apply truncR_range. unfold findex. simpl.
+    assert (Hd : 0 < last - first) by lra. assert (Hnn : 1 <= IZR n) by (apply IZR_le in Hn; exact Hn).
+    assert (Hq : 0 <= (x - first) / (last - first) <= 1).
+    { split; [apply Rmult_le_pos; [lra | left; apply Rinv_0_lt_compat, Hd]|].
+      apply (Rmult_le_reg_r (last - first)); [exact Hd|]. unfold Rdiv. rewrite Rmult_assoc, Rinv_l by lra. lra. }
+    split; [apply Rmult_le_pos; lra | nra].
+Qed.
+
+(** HDM's two histograms of a feature: both sum to the sizes of reference and batch *)
+Lemma feat_hists_sum_R bins (ref X : list (list R)) f :
+  (1 <= bins)%Z -> ref <> [] -> X <> [] ->
+  let '(rh, th) := @feat_hists NumR truncR bins ref X f in
+  zsum_l rh = zlen ref /\ zsum_l th = zlen X.
+Proof.
+  intros Hb Hr HX. unfold feat_hists, feat_range.
+  set (c := @hcol NumR f ref ++ @hcol NumR f X).
+  assert (Hc : forall x, In x c -> @lmin NumR c <= x <= @lmax NumR c).
+  { intros x Hin. split; apply Rleb_iff; [apply (@lmin_le NumR OrdLawsR) | apply (@lmax_ge NumR OrdLawsR)]; exact Hin. }
+  split.
+  - rewrite hist_sum_R; [unfold zlen, hcol; rewrite map_length; reflexivity | exact Hb | | ].
+    + intros x Hin. apply Hc. unfold c. apply in_or_app. left. exact Hin.
+    + unfold hcol. destruct ref; [congruence | discriminate].
+  - rewrite hist_sum_R; [unfold zlen, hcol; rewrite map_length; reflexivity | exact Hb | | ].
+    + intros x Hin. apply Hc. unfold c. apply in_or_app. right. exact Hin.
+    + unfold hcol. destruct X; [congruence | discriminate].
+Qed.
+
+(** a batch identical to the reference is at distance 0 (every feature, hence the mean) *)
+Lemma identical_batch_R k bins (ref : list (list R)) :
+  @mean_dist NumR k (@feat_dists NumR hellR (@all_hists NumR truncR k bins ref ref)) = 0.
+Proof.
+  unfold mean_dist. rewrite sum_from0_R. rewrite Rsum_zero; [simpl; lra|].
+  intros d Hd. unfold feat_dists, all_hists in Hd. rewrite map_map in Hd.
+  apply in_map_iff in Hd as (f & <- & _). unfold feat_hists. destruct (@feat_range NumR ref ref f). simpl. apply hellR_same.
+Qed.
+
+(** reference and batch of the same size: exchanging their roles does not change the distance
+    (same number of bins, same range, histograms exchanged) *)
+Lemma swapped_batches_R k (ref X : list (list R)) :
+  zlen ref = zlen X ->
+  let bins := fun r : list (list R) => Z.sqrt (zlen r) in
+  @mean_dist NumR k (@feat_dists NumR hellR (@all_hists NumR truncR k (bins ref) ref X)) =
+  @mean_dist NumR k (@feat_dists NumR hellR (@all_hists NumR truncR k (bins X) X ref)).
+Proof.
+  intros Hlen bins. unfold bins. rewrite Hlen. f_equal. unfold feat_dists, all_hists. rewrite !map_map.
+  apply map_ext. intros f. unfold feat_hists, feat_range.
+  rewrite (@lmin_permutation NumR OrdLawsR antisymR _ _ (Permutation_app_comm (@hcol NumR f ref) (@hcol NumR f X))).
+  rewrite (@lmax_permutation NumR OrdLawsR antisymR _ _ (Permutation_app_comm (@hcol NumR f ref) (@hcol NumR f X))).
+  simpl. apply hellR_sym.
+Qed.
+
+End HistR.
+
+Section Argmax.
+Context {N : Num}.
+Notation F := (F N).
+Variable L : OrdLaws N.
+Variable eq_refl_law : forall a : F, feqb a a = true.
+Variable eq_le_law : forall a b : F, feqb a b = true -> fleb b a = true.
+
+Lemma pymax_is_lmax (l : list F) : pymax_list l = lmax l.
+Proof. reflexivity. Qed.
+
+Lemma index_of_spec (m : F) (l : list F) : In m l ->
+  let i := index_of m l in
+  0 <= i < zlen l /\ feqb (nth (Z.to_nat i) l f0) m = true /\
+  (forall j, 0 <= j < i -> feqb (nth (Z.to_nat j) l f0) m = false).
+Proof.
+  induction l as [|x l IH]; intros Hin; [destruct Hin|]. cbv zeta. cbn [index_of].
+  destruct (feqb x m) eqn:E.
+  - rewrite zlen_cons. pose proof (zlen_nonneg l). split; [lia|]. split; [exact E|]. intros j Hj. lia.
+  - destruct Hin as [->|Hin]; [rewrite eq_refl_law in E; discriminate|].
+    destruct (IH Hin) as (H1 & H2 & H3). rewrite zlen_cons. split; [lia|]. split.
+    + replace (Z.to_nat (1 + index_of m l)) with (S (Z.to_nat (index_of m l))) by lia. exact H2.
+    + intros j Hj. destruct (Z.eq_dec j 0) as [->|Hj0]; [exact E|].
+      replace (Z.to_nat j) with (S (Z.to_nat (j - 1))) by lia. apply H3. lia.
+Qed.
+
+(** feature_epsilons.index(max(feature_epsilons)): a position holding a value no smaller than any
+    other, and the first position holding the maximum *)
+Lemma argmax_first_spec (l : list F) : l <> [] ->
+  let i := argmax_first l in
+  0 <= i < zlen l /\
+  (forall y, In y l -> fleb y (nth (Z.to_nat i) l f0) = true) /\
+  (forall j, 0 <= j < i -> feqb (nth (Z.to_nat j) l f0) (pymax_list l) = false).
+Proof.
+  intros Hne. cbv zeta. unfold argmax_first.
+  destruct (index_of_spec (pymax_list l) l) as (H1 & H2 & H3); [rewrite pymax_is_lmax; apply lmax_In, Hne|].
+  split; [lia|]. split; [|exact H3].
+  intros y Hy. eapply (leb_trans N L); [apply (lmax_ge L), Hy|].
+  rewrite <- pymax_is_lmax. apply eq_le_law, H2.
+Qed.
+End Argmax.
+
+
+(** ------------------------------------------------------------------ Hdm.v: one pass of update() *)
+Section HdmProofs.
+Context {N : Num}.
+Notation F := (F N).
+Variable trunc : F -> Z.
+Variable sq : F -> F.
+Variable dist : list Z -> list Z -> F.
+Variable tppf : Z -> F.
+
+Notation core := (hdm_core trunc sq dist tppf).
+Notation reset := (hdm_reset trunc sq dist tppf).
+Notation update := (hdm_update trunc sq dist tppf).
+Notation set_reference := (hdm_set_reference trunc sq dist tppf).
+Notation apply_op := (hdm_apply trunc sq dist tppf).
+Notation run := (hdm_run trunc sq dist tppf).
+Notation trace := (hdm_trace trunc sq dist tppf).
+Notation hparams := (@hdm_params N).
+Notation hstate := (@hst N).
+
+(** the quantities one pass computes, named as in the Python source *)
+Definition c_total (s : hstate) : Z := h_total s + 1.
+Definition c_since (s : hstate) : Z := h_since s + 1.
+Definition c_hists (p : hparams) (s : hstate) (X : list hrow) := all_hists trunc (h_k p) (h_bins s) (h_ref s) X.
+Definition c_fds (p : hparams) (s : hstate) (X : list hrow) : list F := feat_dists dist (c_hists p s X).
+Definition c_cur (p : hparams) (s : hstate) (X : list hrow) : F := mean_dist (h_k p) (c_fds p s X).
+(** current_epsilon = abs(current_distance - _prev_distance) * 1.0 *)
+Definition c_ce (p : hparams) (s : hstate) (X : list hrow) : F := fmul (fabs (fsub (c_cur p s X) (h_prev s))) f1.
+Definition c_eps_b (p : hparams) (s : hstate) (X : list hrow) (boot : F) : list F :=
+  (if boot_phase p (c_since s) then h_eps s ++ [boot] else h_eps s) ++ [c_ce p s X].
+Definition c_at (p : hparams) (s : hstate) (X : list hrow) (boot : F) : list F * F * F :=
+  adaptive_threshold sq tppf p (c_eps_b p s X boot) (h_tot s) (c_since s) (c_total s - h_lambda s) (h_ref_n s) (zlen X).
+Definition c_beta p s X boot : F := snd (c_at p s X boot).
+Definition c_has_eps (s : hstate) : bool := 2 <=? c_since s.
+Definition c_has_beta (p : hparams) (s : hstate) : bool := c_has_eps s && gate p (c_since s).
+Definition c_drift p s X boot : bool := c_has_beta p s && fltb (c_beta p s X boot) (c_ce p s X).
+Definition c_feps (p : hparams) (s : hstate) (X : list hrow) : option (list F) :=
+  if 1 <? c_total s then Some (zip_sub (c_fds p s X) (h_prev_fd s)) else h_feps s.
+
+Lemma gate_has_eps (p : hparams) n : gate p n = true -> (2 <=? n) = true.
+Proof. unfold gate. destruct (h_db p =? 3); lia. Qed.
+Lemma has_beta_gate (p : hparams) s : c_has_beta p s = gate p (c_since s).
+Proof. unfold c_has_beta, c_has_eps. destruct (gate p (c_since s)) eqn:E; [rewrite (gate_has_eps _ _ E); reflexivity | apply andb_false_r]. Qed.
+
+Lemma core_eq (p : hparams) s X boot :
+  core p s X boot =
+  let drift := c_drift p s X boot in
+  let ds' := if drift then DDrift else h_ds s in
+  let keep_ref := negb (is_drift ds') in
+  let ref' := h_ref s ++ X in
+  mk_hst
+    (if drift then X else if keep_ref then ref' else h_ref s)
+    (if keep_ref then zlen ref' else h_ref_n s)
+    (if keep_ref then Z.sqrt (zlen ref') else h_bins s)
+    (if c_has_beta p s then fst (fst (c_at p s X boot)) else if c_has_eps s then c_eps_b p s X boot else h_eps s)
+    (if c_has_beta p s then snd (fst (c_at p s X boot)) else h_tot s)
+    (if drift then c_total s else h_lambda s)
+    (if keep_ref then c_cur p s X else h_prev s)
+    (if keep_ref then c_fds p s X else h_prev_fd s)
+    (c_total s) (c_since s) ds'
+    (Some (c_cur p s X))
+    (if c_has_beta p s then Some (c_beta p s X boot) else h_beta s)
+    (c_feps p s X)
+    (if drift && (1 <? h_k p)
+     then (let fe := match c_feps p s X with Some l => l | None => [] end in Some (fe, c_fds p s X, argmax_first fe))
+     else h_finfo s)
+    ((c_total s, c_cur p s X) :: h_dists s)
+    (if c_has_eps s then (c_total s, c_ce p s X) :: h_epsv s else h_epsv s)
+    (if c_has_beta p s then (c_total s, c_beta p s X boot) :: h_thr s else h_thr s)
+    (Some (c_cur p s X))
+    (if c_has_eps s then Some (c_ce p s X) else None)
+    (if c_has_beta p s then Some (c_beta p s X boot) else None)
+    (c_hists p s X).
+Proof.
+  unfold hdm_core, c_drift, c_beta, c_has_beta, c_has_eps, c_feps.
+  change (adaptive_threshold sq tppf p _ (h_tot s) (h_since s + 1) (h_total s + 1 - h_lambda s) (h_ref_n s) (zlen X))
+    with (c_at p s X boot).
+  destruct (c_at p s X boot) as [[e t] b]. reflexivity.
+Qed.
+
+(** ---------------- counters, state, reference ---------------- *)
+Lemma core_total (p : hparams) s X b : h_total (core p s X b) = h_total s + 1.
+Proof. rewrite core_eq. reflexivity. Qed.
+Lemma core_since (p : hparams) s X b : h_since (core p s X b) = h_since s + 1.
+Proof. rewrite core_eq. reflexivity. Qed.
+Lemma core_ds (p : hparams) s X b : h_ds (core p s X b) = if c_drift p s X b then DDrift else h_ds s.
+Proof. rewrite core_eq. reflexivity. Qed.
+Lemma core_lambda (p : hparams) s X b :
+  h_lambda (core p s X b) = if c_drift p s X b then h_total s + 1 else h_lambda s.
+Proof. rewrite core_eq. reflexivity. Qed.
+
+Lemma drift_needs_gate (p : hparams) s X b : c_drift p s X b = true -> gate p (h_since s + 1) = true.
+Proof. unfold c_drift. rewrite has_beta_gate. intros H. apply andb_true_iff in H as [H _]. exact H. Qed.
+
+(** drift is reported exactly when the threshold was due and epsilon exceeds it *)
+Lemma core_drift_iff (p : hparams) s X b : h_ds s <> DDrift ->
+  (h_ds (core p s X b) = DDrift <-> gate p (h_since s + 1) = true /\ fltb (c_beta p s X b) (c_ce p s X) = true).
+Proof.
+  intros Hs. rewrite core_ds. unfold c_drift. rewrite has_beta_gate. unfold c_since.
+  destruct (gate p (h_since s + 1)); simpl.
+  - destruct (fltb (c_beta p s X b) (c_ce p s X)); split; intros H; try (split; reflexivity); try reflexivity.
+    + contradiction.
+    + destruct H; discriminate.
+  - split; [intros H; contradiction | intros [H _]; discriminate].
+Qed.
+
+Lemma core_no_drift (p : hparams) s X b : h_ds (core p s X b) <> DDrift ->
+  c_drift p s X b = false /\ h_ds s <> DDrift.
+Proof. rewrite core_ds. destruct (c_drift p s X b); [congruence | auto]. Qed.
+
+(** no drift: the batch is appended, reference_n grows by the batch size, the bins follow, the
+    distance becomes the previous distance; the epoch goes on *)
+Lemma core_keeps_epoch (p : hparams) s X b : h_ds (core p s X b) <> DDrift ->
+  let s' := core p s X b in
+  h_ref s' = h_ref s ++ X /\ h_ref_n s' = zlen (h_ref s) + zlen X /\ h_bins s' = Z.sqrt (h_ref_n s') /\
+  h_prev s' = c_cur p s X /\ h_prev_fd s' = c_fds p s X /\ h_lambda s' = h_lambda s /\ h_ds s' = h_ds s.
+Proof.
+  intros H. destruct (core_no_drift _ _ _ _ H) as [Hd Hs]. cbv zeta. rewrite core_eq. cbv zeta. rewrite Hd.
+  assert (E : is_drift (h_ds s) = false) by (destruct (h_ds s); try reflexivity; congruence).
+  rewrite E. simpl. rewrite zlen_app. repeat split; reflexivity.
+Qed.
+
+(** drift: the batch replaces the reference; reference_n / _bins are refreshed by the reset that the
+    next update performs; _lambda is the index of this batch *)
+Lemma core_starts_epoch (p : hparams) s X b : c_drift p s X b = true ->
+  let s' := core p s X b in
+  h_ds s' = DDrift /\ h_ref s' = X /\ h_ref_n s' = h_ref_n s /\ h_bins s' = h_bins s /\
+  h_lambda s' = h_total s' /\ h_prev s' = h_prev s /\ h_prev_fd s' = h_prev_fd s.
+Proof. intros Hd. cbv zeta. rewrite core_eq. cbv zeta. rewrite Hd. simpl. repeat split; reflexivity. Qed.
+
+(** what the pass records *)
+Lemma core_records (p : hparams) s X b :
+  let s' := core p s X b in
+  h_cur s' = Some (c_cur p s X) /\ h_cur_now s' = Some (c_cur p s X) /\
+  h_dists s' = (h_total s + 1, c_cur p s X) :: h_dists s /\
+  h_hists s' = c_hists p s X /\
+  h_eps_now s' = (if 2 <=? h_since s + 1 then Some (c_ce p s X) else None) /\
+  h_epsv s' = (if 2 <=? h_since s + 1 then (h_total s + 1, c_ce p s X) :: h_epsv s else h_epsv s) /\
+  h_beta_now s' = (if gate p (h_since s + 1) then Some (c_beta p s X b) else None) /\
+  h_thr s' = (if gate p (h_since s + 1) then (h_total s + 1, c_beta p s X b) :: h_thr s else h_thr s) /\
+  h_beta s' = (if gate p (h_since s + 1) then Some (c_beta p s X b) else h_beta s) /\
+  h_feps s' = (if 1 <? h_total s + 1 then Some (zip_sub (c_fds p s X) (h_prev_fd s)) else h_feps s).
+Proof. cbv zeta. rewrite core_eq. cbv zeta. simpl. rewrite has_beta_gate. unfold c_has_eps, c_since, c_total, c_feps, c_total. repeat split; reflexivity. Qed.
+
+(** feature_info on drift, several features: the per-feature differences, the per-feature distances,
+    and the position of the first maximal difference *)
+Lemma core_feature_info (p : hparams) s X b : c_drift p s X b = true -> 1 <= h_total s ->
+  h_finfo (core p s X b) =
+  (if 1 <? h_k p
+   then (let fe := zip_sub (c_fds p s X) (h_prev_fd s) in Some (fe, c_fds p s X, argmax_first fe))
+   else h_finfo s).
+Proof.
+  intros Hd Ht. rewrite core_eq. cbv zeta. rewrite Hd. simpl. unfold c_feps, c_total.
+  replace (1 <? h_total s + 1) with true by lia. reflexivity.
+Qed.
+Lemma core_feature_info_kept (p : hparams) s X b : c_drift p s X b = false -> h_finfo (core p s X b) = h_finfo s.
+Proof. intros Hd. rewrite core_eq. cbv zeta. rewrite Hd. reflexivity. Qed.
+
+(** ---------------- the adaptive threshold ---------------- *)
+(** [eps]: the list after the append(s) of this pass; the (bootstrap) head is dropped on the third batch *)
+Definition thr_eps (p : hparams) (since : Z) (eps : list F) : list F :=
+  if (since =? 3) && negb (h_db p =? 3) then tl eps else eps.
+Definition thr_tot (p : hparams) (since : Z) (eps : list F) (tot : F) : F :=
+  fadd (if (since =? 3) && negb (h_db p =? 3) then fsub tot (hd f0 eps) else tot) (last2 (thr_eps p since eps)).
+Definition thr_d (p : hparams) (since dl : Z) : Z := if boot_phase p since then 1 else dl - 1.
+Definition thr_mean (d : Z) (tot : F) : F := fmul (fdiv f1 (fofZ d)) tot.
+Definition thr_sd (d : Z) (eps : list F) (eh : F) : F :=
+  fsqrt (fdiv (sum_from0 (map (fun e => sq (fsub e eh)) (removelast eps))) (fofZ d)).
+
+Lemma adaptive_threshold_spec (p : hparams) eps tot since dl ref_n test_n :
+  let eps1 := thr_eps p since eps in
+  let tot2 := thr_tot p since eps tot in
+  let d := thr_d p since dl in
+  let eh := thr_mean d tot2 in
+  let sd := thr_sd d eps1 eh in
+  adaptive_threshold sq tppf p eps tot since dl ref_n test_n =
+  (eps1, tot2,
+   if h_tstat p then fadd eh (fmul (tppf (ref_n + test_n - 2)) (fdiv sd (fsqrt (fofZ d))))
+   else fadd eh (fmul (h_sig p) sd)).
+Proof.
+  cbv zeta. unfold adaptive_threshold, thr_tot, thr_d, thr_mean, thr_sd, thr_eps.
+  destruct ((since =? 3) && negb (h_db p =? 3)); reflexivity.
+Qed.
+
+(** ---------------- reset() ---------------- *)
+Lemma reset_base_since1 (p : hparams) s X b :
+  let s1 := hdm_reset_base p s in
+  c_drift p s1 X b = false /\ c_has_eps s1 = false /\ c_has_beta p s1 = false.
+Proof.
+  cbv zeta. unfold c_drift. rewrite has_beta_gate. unfold c_has_eps, c_since, gate. simpl.
+  destruct (h_db p =? 3); simpl; auto.
+Qed.
+
+Lemma firstn_skipn_len {A} (l : list A) n : firstn n l ++ skipn n l = l.
+Proof. apply firstn_skipn. Qed.
+
+Lemma reset_fields (p : hparams) s :
+  let r := reset p s in
+  h_ds r = DNone /\ h_ref r = h_ref s /\ h_ref_n r = zlen (h_ref s) /\ h_bins r = Z.sqrt (zlen (h_ref s)) /\
+  h_eps r = [] /\ h_tot r = f0 /\ h_lambda r = h_lambda s /\
+  h_total r = h_total s + (if h_db p =? 1 then 1 else 0) /\
+  h_since r = (if h_db p =? 1 then 1 else 0).
+Proof.
+  cbv zeta. unfold hdm_reset. destruct (h_db p =? 1) eqn:E.
+  - rewrite core_eq. cbv zeta.
+    destruct (reset_base_since1 p s (hdm_proxy s) f0) as (H1 & H2 & H3). rewrite H1, H2, H3.
+    unfold hdm_reset_base, hdm_proxy, c_total, c_since. rewrite E. simpl.
+    rewrite firstn_skipn. repeat split; reflexivity.
+  - unfold hdm_reset_base. rewrite E. simpl. repeat split; lia.
+Qed.
+
+(** ---------------- update(): the lifecycle facts ---------------- *)
+Lemma update_total (p : hparams) s X b :
+  h_total (update p s X b) = h_total s + (if is_drift (h_ds s) && (h_db p =? 1) then 2 else 1).
+Proof.
+  unfold hdm_update. rewrite core_total. destruct (is_drift (h_ds s)); simpl; [|lia].
+  destruct (reset_fields p s) as (_ & _ & _ & _ & _ & _ & _ & Ht & _). rewrite Ht. destruct (h_db p =? 1); lia.
+Qed.
+Lemma update_since (p : hparams) s X b :
+  h_since (update p s X b) = if is_drift (h_ds s) then (if h_db p =? 1 then 2 else 1) else h_since s + 1.
+Proof.
+  unfold hdm_update. rewrite core_since. destruct (is_drift (h_ds s)); [|reflexivity].
+  destruct (reset_fields p s) as (_ & _ & _ & _ & _ & _ & _ & _ & Hs). rewrite Hs. destruct (h_db p =? 1); lia.
+Qed.
+Lemma update_drift_gate (p : hparams) s X b :
+  h_ds (update p s X b) = DDrift -> gate p (h_since (update p s X b)) = true.
+Proof.
+  unfold hdm_update. rewrite core_ds, core_since.
+  set (s0 := if is_drift (h_ds s) then reset p s else s).
+  assert (H0 : h_ds s0 <> DDrift).
+  { unfold s0. destruct (is_drift (h_ds s)) eqn:E.
+    - destruct (reset_fields p s) as (Hd & _). rewrite Hd. discriminate.
+    - destruct (h_ds s); try discriminate; intros; discriminate. }
+  destruct (c_drift p s0 X b) eqn:E; [intros _; apply (drift_needs_gate _ _ _ _ E) | intros; contradiction].
+Qed.
+
+(** ---------------- invariants of every reachable state ---------------- *)
+Definition eps_len (p : hparams) (n : Z) : Z :=
+  if h_db p =? 3 then Z.max 0 (n - 1) else if n <=? 1 then 0 else if n =? 2 then 2 else n - 1.
+
+Definition hinv (p : hparams) (s : hstate) : Prop :=
+  0 <= h_since s <= h_total s /\ h_ds s <> DWarn /\
+  zlen (h_eps s) = eps_len p (h_since s) /\
+  (h_ds s <> DDrift ->
+     h_total s - h_lambda s = h_since s /\ h_ref_n s = zlen (h_ref s) /\ h_bins s = Z.sqrt (zlen (h_ref s))) /\
+  (h_ds s = DDrift -> h_lambda s = h_total s /\ gate p (h_since s) = true).
+
+Lemma hinv_init (p : hparams) : hinv p hdm_init.
+Proof. unfold hinv, hdm_init, eps_len, zlen. simpl. destruct (h_db p =? 3); repeat split; try lia; try discriminate. Qed.
+
+Lemma at_eps_len (p : hparams) s X b : 0 <= h_since s -> zlen (h_eps s) = eps_len p (h_since s) ->
+  zlen (if c_has_beta p s then fst (fst (c_at p s X b)) else if c_has_eps s then c_eps_b p s X b else h_eps s)
+  = eps_len p (h_since s + 1).
+Proof.
+  intros H0 HK. rewrite has_beta_gate. unfold c_at. rewrite adaptive_threshold_spec. cbv zeta. simpl fst.
+  unfold c_has_eps, gate, thr_eps, c_eps_b, boot_phase, c_since, eps_len in *.
+  destruct (h_db p =? 3) eqn:E3; simpl.
+  - destruct (3 <=? h_since s + 1) eqn:G.
+    + rewrite !andb_false_r. rewrite zlen_app, zlen_cons. unfold zlen at 2. simpl. lia.
+    + destruct (2 <=? h_since s + 1) eqn:G2; [rewrite !andb_false_r, zlen_app, zlen_cons; unfold zlen at 2; simpl; lia | lia].
+  - rewrite !andb_true_r.
+    destruct (h_since s <=? 1) eqn:A1; destruct (h_since s =? 2) eqn:A2;
+      destruct (2 <=? h_since s + 1) eqn:G2; destruct (h_since s + 1 =? 3) eqn:G3;
+      destruct (h_since s + 1 =? 2) eqn:G4; destruct (h_since s + 1 <=? 1) eqn:G5; try lia;
+      try (rewrite !zlen_app, !zlen_cons; unfold zlen at 2 3; simpl; lia);
+      try (rewrite !zlen_app, !zlen_cons; unfold zlen at 2; simpl; lia).
+    destruct (h_eps s) as [|e0 l]; [unfold zlen in HK; simpl in HK; lia|].
+    simpl. rewrite zlen_cons in HK. rewrite zlen_app, zlen_cons. unfold zlen at 2. simpl. lia.
+Qed.
+
+Lemma hinv_core (p : hparams) s X b : hinv p s -> h_ds s <> DDrift -> hinv p (core p s X b).
+Proof.
+  intros (Hs & Hw & HK & Hn & _) Hd. destruct (Hn Hd) as (Hl & Hrn & Hb).
+  unfold hinv. rewrite core_total, core_since, core_ds, core_lambda.
+  split; [lia|]. split; [destruct (c_drift p s X b); [discriminate | exact Hw]|].
+  split.
+  - rewrite core_eq. cbv zeta. cbn [h_eps]. apply at_eps_len; [lia | exact HK].
+  - destruct (c_drift p s X b) eqn:E.
+    + split; [intros C; congruence|]. intros _. split; [reflexivity | apply (drift_needs_gate _ _ _ _ E)].
+    + split; [|intros C; congruence]. intros _.
+      assert (Hnd : h_ds (core p s X b) <> DDrift) by (rewrite core_ds, E; exact Hd).
+      destruct (core_keeps_epoch _ _ _ _ Hnd) as (R1 & R2 & R3 & _). cbv zeta in *.
+      rewrite R3, R2, R1, zlen_app. repeat split; lia.
+Qed.
+
+Lemma hinv_reset (p : hparams) s : 0 <= h_total s -> h_lambda s = h_total s -> h_ds s <> DWarn -> hinv p (reset p s).
+Proof.
+  intros Ht Hl Hw. destruct (reset_fields p s) as (R1 & R2 & R3 & R4 & R5 & R6 & R7 & R8 & R9). cbv zeta in *.
+  unfold hinv. rewrite R1, R2, R3, R4, R5, R7, R8, R9. unfold eps_len, zlen. simpl.
+  destruct (h_db p =? 1) eqn:E1; destruct (h_db p =? 3) eqn:E3; repeat split; try lia; try discriminate.
+Qed.
+
+Lemma hinv_update (p : hparams) s X b : hinv p s -> hinv p (update p s X b).
+Proof.
+  intros H. unfold hdm_update. destruct (is_drift (h_ds s)) eqn:E.
+  - assert (Hd : h_ds s = DDrift) by (destruct (h_ds s); try discriminate; reflexivity).
+    destruct H as (Hs & Hw & _ & _ & Hdr). destruct (Hdr Hd) as [Hl _].
+    apply hinv_core.
+    + apply hinv_reset; [lia | exact Hl | exact Hw].
+    + destruct (reset_fields p s) as (R1 & _). rewrite R1. discriminate.
+  - apply hinv_core; [exact H|]. destruct (h_ds s); try discriminate; intros; discriminate.
+Qed.
+
+Lemma hinv_set_reference (p : hparams) s X : hinv p s -> hinv p (set_reference p s X).
+Proof.
+  intros H. unfold hdm_set_reference. destruct ((h_db p =? 1) && (zlen X <? 3)); [exact H|].
+  destruct H as (Hs & Hw & _). apply hinv_reset; unfold with_reference; simpl; [lia | reflexivity | exact Hw].
+Qed.
+
+Lemma hinv_run (p : hparams) ops s : hinv p s -> hinv p (run p s ops).
+Proof.
+  revert s; induction ops as [|o ops IH]; intros s H; simpl; [exact H|].
+  apply IH. destruct o; simpl; [apply hinv_update | apply hinv_set_reference]; exact H.
+Qed.
+
+(** in every reachable state the denominator of the threshold is batches_since_reset - 1 *)
+Lemma dscale_since (p : hparams) s : hinv p s -> h_ds s <> DDrift ->
+  thr_d p (c_since s) (c_total s - h_lambda s) = if boot_phase p (h_since s + 1) then 1 else h_since s.
+Proof.
+  intros (_ & _ & _ & Hn & _) Hd. destruct (Hn Hd) as (Hl & _). unfold thr_d, c_since, c_total.
+  destruct (boot_phase p (h_since s + 1)); lia.
+Qed.
+
+
+(** two detectors in the same epoch state, their batch indices differing by [k]; what is left out
+    (the per-feature distances of the previous batch, the records of earlier epochs, attributes that
+    keep their last value) is never read by the fields listed *)
+Definition twin (k : Z) (a b : hstate) : Prop :=
+  h_ref a = h_ref b /\ h_ref_n a = h_ref_n b /\ h_bins a = h_bins b /\ h_eps a = h_eps b /\ h_tot a = h_tot b /\
+  h_lambda a = h_lambda b + k /\ h_total a = h_total b + k /\ h_since a = h_since b /\ 0 <= h_since a /\
+  h_ds a = h_ds b /\ (1 <= h_since a -> h_prev a = h_prev b) /\
+  h_cur_now a = h_cur_now b /\ h_eps_now a = h_eps_now b /\ h_beta_now a = h_beta_now b.
+
+Lemma twin_obs k a b : twin k a b -> hobserve a = hshift k (hobserve b).
+Proof.
+  intros (H1 & H2 & H3 & H4 & H5 & H6 & H7 & H8 & H9 & H10 & H11 & H12 & H13 & H14).
+  unfold hobserve, hshift. simpl. rewrite H1, H2, H4, H5, H7, H8, H10, H12, H13, H14. reflexivity.
+Qed.
+
+Lemma twin_core (p : hparams) k a b X bt : twin k a b -> h_ds b <> DDrift -> twin k (core p a X bt) (core p b X bt).
+Proof.
+  intros (H1 & H2 & H3 & H4 & H5 & H6 & H7 & H8 & H9 & H10 & H11 & H12 & H13 & H14) Hnd.
+  assert (Hid : is_drift (h_ds b) = false) by (destruct (h_ds b); try reflexivity; congruence).
+  assert (Eh : c_hists p a X = c_hists p b X) by (unfold c_hists; rewrite H1, H3; reflexivity).
+  assert (Ef : c_fds p a X = c_fds p b X) by (unfold c_fds; rewrite Eh; reflexivity).
+  assert (Ec : c_cur p a X = c_cur p b X) by (unfold c_cur; rewrite Ef; reflexivity).
+  assert (Es : c_since a = c_since b) by (unfold c_since; lia).
+  assert (Ehe : c_has_eps a = c_has_eps b) by (unfold c_has_eps; rewrite Es; reflexivity).
+  assert (Ehb : c_has_beta p a = c_has_beta p b) by (unfold c_has_beta; rewrite Es, Ehe; reflexivity).
+  destruct (Z.eq_dec (h_since a) 0) as [Z0|NZ].
+  - (* first batch of the epoch: no epsilon, no threshold, no drift *)
+    assert (Ea : c_has_eps a = false) by (unfold c_has_eps, c_since; lia).
+    assert (Eb : c_has_eps b = false) by (rewrite <- Ehe; exact Ea).
+    assert (Ba : c_has_beta p a = false) by (unfold c_has_beta; rewrite Ea; reflexivity).
+    assert (Bb : c_has_beta p b = false) by (rewrite <- Ehb; exact Ba).
+    assert (Da : c_drift p a X bt = false) by (unfold c_drift; rewrite Ba; reflexivity).
+    assert (Db : c_drift p b X bt = false) by (unfold c_drift; rewrite Bb; reflexivity).
+    unfold twin. rewrite !core_eq. cbv zeta. rewrite Da, Db, Ea, Eb, Ba, Bb. simpl.
+    rewrite H1, H2, H3, H4, H5, H10, Ec, Hid. unfold c_total, c_since. simpl.
+    repeat split; try reflexivity; try lia.
+  - assert (Hp : h_prev a = h_prev b) by (apply H11; lia).
+    assert (Ece : c_ce p a X = c_ce p b X) by (unfold c_ce; rewrite Ec, Hp; reflexivity).
+    assert (Eeb : c_eps_b p a X bt = c_eps_b p b X bt) by (unfold c_eps_b; rewrite Es, H4, Ece; reflexivity).
+    assert (Eat : c_at p a X bt = c_at p b X bt).
+    { unfold c_at. rewrite Eeb, H5, Es, H2. f_equal. unfold c_total. lia. }
+    assert (Ebt : c_beta p a X bt = c_beta p b X bt) by (unfold c_beta; rewrite Eat; reflexivity).
+    assert (Ed : c_drift p a X bt = c_drift p b X bt) by (unfold c_drift; rewrite Ehb, Ebt, Ece; reflexivity).
+    unfold twin. rewrite !core_eq. cbv zeta. rewrite Ed, Ehe, Ehb, Eat. simpl.
+    rewrite H1, H2, H3, H4, H5, H10, Ec, Ece, Ebt, Eeb, Hp. unfold c_total, c_since.
+    repeat split; try reflexivity; try lia.
+Qed.
+
+Lemma twin_reset_base (p : hparams) k a b :
+  h_ref a = h_ref b -> h_lambda a = h_lambda b + k -> h_total a = h_total b + k ->
+  twin k (hdm_reset_base p a) (hdm_reset_base p b).
+Proof.
+  intros H1 H2 H3. unfold twin, hdm_reset_base. simpl. rewrite H1. repeat split; try reflexivity; try lia.
+Qed.
+
+Lemma twin_reset (p : hparams) k a b :
+  h_ref a = h_ref b -> h_lambda a = h_lambda b + k -> h_total a = h_total b + k ->
+  twin k (reset p a) (reset p b).
+Proof.
+  intros H1 H2 H3. unfold hdm_reset. pose proof (twin_reset_base p k a b H1 H2 H3) as T.
+  destruct (h_db p =? 1); [|exact T]. unfold hdm_proxy. rewrite H1. apply twin_core; [exact T | simpl; discriminate].
+Qed.
+
+Lemma twin_update (p : hparams) k a b X bt : twin k a b -> twin k (update p a X bt) (update p b X bt).
+Proof.
+  intros T. unfold hdm_update. pose proof T as (H1 & _ & _ & _ & _ & H6 & H7 & _ & _ & H10 & _). rewrite H10.
+  destruct (is_drift (h_ds b)) eqn:E; apply twin_core.
+  - apply twin_reset; assumption.
+  - destruct (reset_fields p b) as (R & _). rewrite R. discriminate.
+  - exact T.
+  - destruct (h_ds b); try discriminate; intros; discriminate.
+Qed.
+
+Lemma twin_set_reference_fresh (p : hparams) k a b Y : h_total a = h_total b + k ->
+  ((h_db p =? 1) && (zlen Y <? 3)) = false ->
+  twin k (set_reference p a Y) (set_reference p b Y).
+Proof.
+  intros Ht Hok. unfold hdm_set_reference. rewrite Hok. apply twin_reset; unfold with_reference; simpl; [reflexivity | lia | lia].
+Qed.
+
+Lemma twin_set_reference (p : hparams) k a b Y : twin k a b -> twin k (set_reference p a Y) (set_reference p b Y).
+Proof.
+  intros T. destruct ((h_db p =? 1) && (zlen Y <? 3)) eqn:E.
+  - unfold hdm_set_reference. rewrite E. exact T.
+  - apply twin_set_reference_fresh; [|exact E]. destruct T as (_ & _ & _ & _ & _ & _ & H7 & _). exact H7.
+Qed.
+
+Lemma twin_apply (p : hparams) k a b o : twin k a b -> twin k (apply_op p a o) (apply_op p b o).
+Proof. intros T. destruct o; simpl; [apply twin_update | apply twin_set_reference]; exact T. Qed.
+
+Lemma twin_trace (p : hparams) k ops : forall a b, twin k a b -> trace p a ops = map (hshift k) (trace p b ops).
+Proof.
+  induction ops as [|o ops IH]; intros a b T; simpl; [reflexivity|].
+  pose proof (twin_apply p k a b o T) as T'. rewrite (twin_obs _ _ _ T'), (IH _ _ T'). reflexivity.
+Qed.
+
+(** set_reference at any time = a new detector given that reference *)
+Lemma clean_slate_set_reference (p : hparams) (s : hstate) Y ops :
+  ((h_db p =? 1) && (zlen Y <? 3)) = false ->
+  let a := set_reference p s Y in
+  let b := set_reference p hdm_init Y in
+  hobserve a = hshift (h_total s) (hobserve b) /\ trace p a ops = map (hshift (h_total s)) (trace p b ops).
+Proof.
+  intros Hok. cbv zeta.
+  assert (T : twin (h_total s) (set_reference p s Y) (set_reference p hdm_init Y))
+    by (apply twin_set_reference_fresh; [simpl; lia | exact Hok]).
+  split; [apply twin_obs, T | apply twin_trace, T].
+Qed.
+
+(** after a drift: from the next update on, the detector is a new detector whose reference is the
+    drifted batch *)
+Lemma clean_slate_drift (p : hparams) (s : hstate) X bt ops :
+  h_ds s = DDrift -> h_lambda s = h_total s ->
+  ((h_db p =? 1) && (zlen (h_ref s) <? 3)) = false ->
+  trace p s (OUpd X bt :: ops) =
+  map (hshift (h_total s)) (trace p (set_reference p hdm_init (h_ref s)) (OUpd X bt :: ops)).
+Proof.
+  intros Hd Hl Hok.
+  set (f := set_reference p hdm_init (h_ref s)).
+  assert (T : twin (h_total s) (reset p s) f).
+  { unfold f, hdm_set_reference. rewrite Hok. apply twin_reset; unfold with_reference; simpl; [reflexivity | lia | lia]. }
+  assert (Hf : h_ds f = DNone).
+  { unfold f, hdm_set_reference. rewrite Hok. destruct (reset_fields p (with_reference hdm_init (h_ref s))) as (R & _). exact R. }
+  assert (T' : twin (h_total s) (update p s X bt) (update p f X bt)).
+  { unfold hdm_update. rewrite Hd, Hf. simpl. apply twin_core; [exact T | rewrite Hf; discriminate]. }
+  simpl. rewrite (twin_obs _ _ _ T'), (twin_trace p _ ops _ _ T'). reflexivity.
+Qed.
+
+End HdmProofs.
+
+(** ------------------------------------------------------------------ exact arithmetic: what the running total is *)
+Section ThresholdR.
+Variable trunc : R -> Z.
+Variable sq : R -> R.
+Variable dist : list Z -> list Z -> R.
+Variable tppf : Z -> R.
+Notation core := (@hdm_core NumR trunc sq dist tppf).
+Notation reset := (@hdm_reset NumR trunc sq dist tppf).
+Notation update := (@hdm_update NumR trunc sq dist tppf).
+Notation set_reference := (@hdm_set_reference NumR trunc sq dist tppf).
+Notation run := (@hdm_run NumR trunc sq dist tppf).
+Notation hparams := (@hdm_params NumR).
+Notation hstate := (@hst NumR).
+Local Open Scope R_scope.
+
+Lemma Rsum_app a b : Rsum (a ++ b) = Rsum a + Rsum b.
+Proof. induction a; simpl; lra. Qed.
+
+Lemma nth_last_R (l : list R) d : l <> [] -> nth (length l - 1) l d = last l d.
+Proof.
+  induction l as [|x l IH]; [congruence|]. intros _. destruct l as [|y l]; [reflexivity|].
+  assert (IH' := IH ltac:(discriminate)).
+  simpl length in *. rewrite Nat.sub_succ, Nat.sub_0_r in *. exact IH'.
+Qed.
+
+Lemma Rsum_removelast (l : list R) : l <> [] -> Rsum l = Rsum (removelast l) + last l 0.
+Proof. intros H. rewrite (app_removelast_last 0 H) at 1. rewrite Rsum_app. simpl. lra. Qed.
+
+Lemma last2_snoc (l : list R) x : l <> [] -> @last2 NumR (l ++ [x]) = last l 0.
+Proof.
+  intros H. unfold last2. rewrite app_length. simpl length.
+  replace (length l + 1 - 2)%nat with (length l - 1)%nat by lia.
+  rewrite app_nth1 by (destruct l; [congruence | simpl; lia]). apply nth_last_R, H.
+Qed.
+
+(** total_epsilon is the sum of the epsilon list without its last entry *)
+Definition tot_inv (s : hstate) : Prop := h_tot s = Rsum (removelast (h_eps s)).
+
+Lemma tot_inv_core (p : hparams) s X b : hinv p s -> tot_inv s -> tot_inv (core p s X b).
+Proof.
+  intros (Hs & _ & HK & _) J. unfold tot_inv in *. rewrite core_eq. cbv zeta. cbn [h_tot h_eps].
+  rewrite has_beta_gate. unfold c_at. rewrite adaptive_threshold_spec. cbv zeta. cbn [fst snd].
+  unfold c_has_eps, gate, thr_tot, thr_eps, c_eps_b, boot_phase, c_since, eps_len in *.
+  set (ce := @c_ce NumR trunc dist p s X) in *. clearbody ce.
+  destruct (h_db p =? 3)%Z eqn:E3; cbn [negb andb].
+  - rewrite !andb_false_r.
+    destruct (3 <=? h_since s + 1)%Z eqn:G.
+    + assert (Hne : h_eps s <> []) by (intros C; rewrite C in HK; unfold zlen in HK; simpl in HK; lia).
+      rewrite removelast_last, last2_snoc by exact Hne. simpl fadd. rewrite J. symmetry. apply Rsum_removelast, Hne.
+    + destruct (2 <=? h_since s + 1)%Z eqn:G2; [|exact J].
+      rewrite removelast_last. rewrite J.
+      assert (E : h_eps s = []) by (destruct (h_eps s); [reflexivity | unfold zlen in HK; simpl in HK; lia]).
+      rewrite E. reflexivity.
+  - rewrite !andb_true_r.
+    destruct (2 <=? h_since s + 1)%Z eqn:G2; [|exact J].
+    destruct (h_since s + 1 =? 3)%Z eqn:G3.
+    + replace (h_since s + 1 =? 2)%Z with false by lia.
+      assert (Hl : zlen (h_eps s) = 2%Z).
+      { destruct (h_since s <=? 1)%Z eqn:A1; destruct (h_since s =? 2)%Z eqn:A2; lia. }
+      destruct (h_eps s) as [|e0 [|e1 [|e2 l]]]; unfold zlen in Hl; simpl in Hl; try lia.
+      simpl in J. simpl. unfold last2. simpl. rewrite J. lra.
+    + destruct (h_since s + 1 =? 2)%Z eqn:G4.
+      * assert (E : h_eps s = []).
+        { destruct (h_since s <=? 1)%Z eqn:A1; [|lia]. destruct (h_eps s); [reflexivity | unfold zlen in HK; simpl in HK; lia]. }
+        rewrite E in *. simpl in J. simpl. unfold last2. simpl. rewrite J. lra.
+      * assert (Hne : h_eps s <> []).
+        { intros C. rewrite C in HK. unfold zlen in HK. simpl in HK.
+          destruct (h_since s <=? 1)%Z eqn:A1; destruct (h_since s =? 2)%Z eqn:A2; lia. }
+        rewrite removelast_last, last2_snoc by exact Hne. simpl fadd. rewrite J. symmetry. apply Rsum_removelast, Hne.
+Qed.
+
+Lemma tot_inv_reset (p : hparams) s : tot_inv (reset p s).
+Proof.
+  unfold tot_inv. destruct (@reset_fields NumR trunc sq dist tppf p s) as (_ & _ & _ & _ & R5 & R6 & _). cbv zeta in *.
+  rewrite R5, R6. reflexivity.
+Qed.
+
+Definition rinv (p : hparams) (s : hstate) : Prop := hinv p s /\ tot_inv s.
+
+Lemma rinv_init (p : hparams) : rinv p hdm_init.
+Proof. split; [apply hinv_init | unfold tot_inv; simpl; reflexivity]. Qed.
+
+Lemma rinv_update (p : hparams) s X b : rinv p s -> rinv p (update p s X b).
+Proof.
+  intros [H J]. split; [apply hinv_update, H|]. unfold hdm_update.
+  destruct (is_drift (h_ds s)) eqn:E; [|apply tot_inv_core; assumption].
+  assert (Hd : h_ds s = DDrift) by (destruct (h_ds s); try discriminate; reflexivity).
+  destruct H as (Hs & Hw & _ & _ & Hdr). destruct (Hdr Hd) as [Hl _].
+  apply tot_inv_core; [|apply tot_inv_reset]. apply hinv_reset; [lia | exact Hl | exact Hw].
+Qed.
+
+Lemma rinv_set_reference (p : hparams) s X : rinv p s -> rinv p (set_reference p s X).
+Proof.
+  intros [H J]. split; [apply hinv_set_reference, H|]. unfold hdm_set_reference.
+  destruct ((h_db p =? 1)%Z && (zlen X <? 3)%Z); [exact J | apply tot_inv_reset].
+Qed.
+
+Lemma rinv_run (p : hparams) ops s : rinv p s -> rinv p (run p s ops).
+Proof.
+  revert s; induction ops as [|o ops IH]; intros s H; simpl; [exact H|].
+  apply IH. destruct o; simpl; [apply rinv_update | apply rinv_set_reference]; exact H.
+Qed.
+
+(** the threshold of a reachable state, in exact arithmetic: with E the epsilons of the epoch before
+    the current one (the bootstrap value only on the second batch, dropped afterwards) and
+    d = batches_since_reset - 1 (1 on the second batch when detect_batch <> 3):
+      epsilon_hat = (sum E) / d,  sigma = sqrt (sum_{e in E} sq (e - epsilon_hat) / d),
+      beta = epsilon_hat + t * sigma / sqrt d      (tstat)
+           = epsilon_hat + significance * sigma     (stdev)  *)
+Lemma beta_exact (p : hparams) s X b : rinv p s -> h_ds s <> DDrift -> gate p (h_since s + 1) = true ->
+  let eps' := h_eps (core p s X b) in
+  let E := removelast eps' in
+  let d := IZR (if boot_phase p (h_since s + 1) then 1 else h_since s)%Z in
+  let eh := 1 / d * Rsum E in
+  let sd := sqrt (Rsum (map (fun e => sq (e - eh)) E) / d) in
+  @c_beta NumR trunc sq dist tppf p s X b =
+  (if h_tstat p then eh + tppf (h_ref_n s + zlen X - 2)%Z * (sd / sqrt d) else eh + h_sig p * sd).
+Proof.
+  intros [H J] Hd Hg. pose proof (tot_inv_core p s X b H J) as J'. cbv zeta.
+  unfold tot_inv in J'. rewrite core_eq in J' |- *. cbv zeta in J' |- *. cbn [h_tot h_eps] in J' |- *.
+  rewrite has_beta_gate in J' |- *. unfold c_since in J' |- *. rewrite Hg in J' |- *.
+  unfold c_beta, c_at in *. rewrite adaptive_threshold_spec in J' |- *. cbv zeta in J' |- *. cbn [fst snd] in J' |- *.
+  rewrite (@dscale_since NumR p s H Hd). unfold c_since in *.
+  unfold thr_mean, thr_sd. rewrite sum_from0_R. simpl fmul. simpl fdiv. simpl fadd. simpl fsub. simpl f1. simpl fsqrt. simpl fofZ.
+  rewrite <- J'. reflexivity.
+Qed.
+
+End ThresholdR.
